@@ -56,6 +56,23 @@ def history(kind, junk, ops, w, rng):
     if kind == "scope":
         names = ["Sa", "Sb", "Sc"][:len(ops)]
         return ("cat", ops + [("paren", tuple(names), ("cat", junk + [("read", n) for n in names] + [word]))])
+    if kind == "alias":
+        # other live copies of the operands lie below (made by dup / over): the word must leave them as they were
+        body = list(junk)
+        for o in ops:
+            body += [o, ("word", "dup")]
+        n = len(ops)
+        # a a b b  ->  bring one copy of each operand to the top, in order: bind them all, re-push
+        names = ["Aa", "Ab", "Ac"][:n]
+        allnames = []
+        for nm in names:
+            allnames += [nm + "x", nm]
+        return ("cat", body + [("paren", tuple(allnames), ("cat", [("read", nm + "x") for nm in names] + [("read", nm) for nm in names] + [word]))])
+    if kind == "stream":
+        # the word sits in a stream: other operand tuples (often of the wrong type) arrive before and after this one
+        def tup():
+            return ("cat", list(junk) + [rng.choice(POOL[:-1]) for _ in ops])
+        return ("cat", [("alt", [tup(), ("cat", junk + ops), tup(), ("cat", junk + ops)]), word])
     raise ValueError(kind)
 
 
@@ -71,6 +88,8 @@ def job(payload):
         hk = ["direct", "detour", "let", "scope"]
         if any(o[0] == "block" for o in ops):
             hk = ["direct", "detour"]
+        elif ops:
+            hk += ["alias", "stream"]       # judged by O1 only: their results legitimately differ from the plain histories
         out["n"] += 1
         out["depths"][str(len(junk) + len(ops))] = out["depths"].get(str(len(junk) + len(ops)), 0) + 1
         try:
@@ -92,7 +111,7 @@ def job(payload):
                         out["diag_cases"] += 1
                     if m["results"]:
                         out["nontrivial"] += 1
-                if kind != "detour" or True:
+                if kind not in ("alias", "stream"):
                     # history independence: the top |ops|+produced slots must agree (junk differs for scope/let: same junk list)
                     sig = (r["st"], sorted(zcheck.exact_key(s) for s in zcheck.eng_results(r)) if r["st"] == "done" else None, bool(r["stderr"]))
                     if first is None:
